@@ -83,8 +83,12 @@ VSop(ev) ==
              \* is a single block (optimize_blocks) and merges them when both are multi-block (optimize_and_combine_blocks);
              \* only the block list that rule predicts is filed under the order finding
              THEN (IF ((ph /\ SelfOverlap(pl)) \/ (oh /\ SelfOverlap(ol))) /\ ph /\ oh /\ o[4] /\ ~IsEmptyLoc(o[3])
-                      /\ LET both == SortSeq(pl[1] \o ol[1], LAMBDA x, y : x[1] < y[1] \/ (x[1] = y[1] /\ x[2] < y[2]))
-                             pred == AlgoCombine(<<both, St(pl)>>, NB(pl) > 1 /\ NB(ol) > 1) IN
+                      \* (blocks in the library's own order for the strand -- start ascending, on the minus strand the longer
+                      \* block first -- because only CONSECUTIVE adjacent blocks are fused on the keep-overlaps path)
+                      /\ LET mergeAll == NB(pl) > 1 /\ NB(ol) > 1
+                             both == IF mergeAll THEN SortSeq(pl[1] \o ol[1], LAMBDA x, y : x[1] < y[1] \/ (x[1] = y[1] /\ x[2] < y[2]))
+                                     ELSE LibSort(pl[1] \o ol[1], St(pl))
+                             pred == AlgoCombine(<<both, St(pl)>>, mergeAll) IN
                          ~IsEmptyLoc(pred) /\ SortSeq(o[3][1], LAMBDA x, y : x[1] < y[1] \/ (x[1] = y[1] /\ x[2] < y[2])) = pred[1]
                    THEN "append:selfoverlap-order" ELSE "append:location-consistent")
         ELSE Ok(~compatible \/ o[4], "append:keeps-location")
